@@ -65,6 +65,9 @@ class Domain:
         """augmented assignment on an immutable local / attribute (x += e)."""
         res.dom.pop(self.name, None)
 
+    def on_assign(self, it, name, v, stmt, st):
+        """binding of a local name (v is a private copy that may be annotated)."""
+
     def on_expr(self, it, node, v, st):
         raise NotImplementedError
 
